@@ -53,7 +53,7 @@ ASSUMPTIONS = [
 N_API = {"quick": 3, "thorough": 6}
 N_TAG = {"quick": 4, "thorough": 6}
 N_EAGER = {"quick": 2, "thorough": 4}
-N_AXES = {"quick": 2, "thorough": 3}
+N_AXES = {"quick": 3, "thorough": 4}
 
 
 def units(tier):
@@ -656,12 +656,28 @@ def judge_train(ctx, cfg, new_pol, opt_state, detail, agg):
     return epochs if clean else None
 
 
+def _tail_verdict(ctx, agg):
+    """Unit-level: the dropped remainder must not always be the tail of the flattened rollout (which is what
+    trimming before shuffling does). Under a uniform shuffle each epoch drops the tail with chance 1/C(N,r)."""
+    ctx.notes["dropped_sets"] = dict(agg)
+    if agg["drop_total"] >= 3 and agg["drop_lg"] > 6:
+        ctx.monitor("dropped_tail_statistic_judged")
+        if agg["drop_tail"] == agg["drop_total"]:
+            ctx.violation("dropped-samples-always-the-tail", {"epochs_observed": agg["drop_total"],
+                                                              "log10_chance_under_uniform_shuffle": -agg["drop_lg"]})
+        elif agg["drop_tail"] > 3 and agg["drop_tail"] > 0.5 * agg["drop_total"] and agg["drop_tail_lg"] > 12:
+            ctx.violation("dropped-samples-mostly-the-tail", dict(agg))
+
+
 def _tag_configs(ctx, shard, nshards):
     rng = np.random.default_rng([ctx.seed, 909])  # same list in every shard, then strided
     cfgs = []
     n = ctx.n(16, 80) * nshards
     fixed = [(3, 7, 4, 3), (1, 8, 3, 2), (2, 5, 3, 4), (4, 4, 5, 2), (1, 1, 1, 2), (2, 1, 1, 3), (3, 5, 2, 1),
-             (2, 6, 12, 2), (4, 16, 9, 3), (1, 13, 4, 5), (2, 12, 5, 3), (3, 9, 7, 1)]
+             (2, 6, 12, 2), (4, 16, 9, 3), (1, 13, 4, 5), (2, 12, 5, 3), (3, 9, 7, 1),
+             # remainders of >= 2 samples and several epochs: "same samples dropped every epoch" is judgeable
+             (3, 9, 5, 4), (2, 13, 4, 4), (4, 11, 6, 4), (1, 15, 3, 5), (3, 15, 6, 3), (4, 7, 5, 3), (2, 9, 4, 5),
+             (1, 16, 5, 1), (3, 11, 4, 4)]
     for i in range(n):
         if i < len(fixed):
             E, S, NB, EP = fixed[i]
@@ -742,15 +758,8 @@ def u_tag(ctx, shard, nshards):
                     if np.array_equal(firsts[a], firsts[b]):
                         ctx.violation("train-shuffle-ignores-key", {"cfg": i, "keys": [a, b], "N": N, "B": B})
                         break
-    # unit-level: the dropped remainder must not always be the tail of the flattened rollout
-    ctx.notes["dropped_sets"] = agg
     ctx.notes["configs_where_batches_per_epoch_differ_from_num_batches"] = doc_mismatch
-    if agg["drop_total"] >= 3 and agg["drop_tail"] == agg["drop_total"] and agg["drop_lg"] > 6:
-        ctx.violation("dropped-samples-always-the-tail", {"epochs_observed": agg["drop_total"],
-                                                          "log10_chance_under_uniform_shuffle": -agg["drop_lg"]})
-    elif agg["drop_total"] and agg["drop_tail_lg"] and agg["drop_tail"] > 3 and \
-            agg["drop_tail"] > 0.5 * agg["drop_total"] and agg["drop_lg"] > 12:
-        ctx.violation("dropped-samples-mostly-the-tail", dict(agg))
+    _tail_verdict(ctx, agg)
     ctx.require("train_runs_fully_judged", 5)
     ctx.require("minibatch_steps_decoded", 20)
     ctx.require("rows_field_checked", 50)
@@ -819,6 +828,7 @@ def u_eager(ctx, shard, nshards):
         flat_ref = None
         mats = []
         pending = []
+        seq_known = True
         for e in ev:
             if e[0] == "flatten":
                 ref = judge_buffer(ctx, "flatten", e[2], specs, 1, detail)
@@ -838,6 +848,9 @@ def u_eager(ctx, shard, nshards):
                 if judge_indices(ctx, e[3], N, B, detail):
                     mats.append(e[3])
                     pending = list(e[3]) if expect_gather else []
+                    seq_known = True
+                else:
+                    pending, seq_known = [], False
             elif e[0] == "gather":
                 idx, src, res = e[1], e[2], e[3]
                 got = judge_buffer(ctx, "gather", res, specs, 1, detail)
@@ -851,7 +864,9 @@ def u_eager(ctx, shard, nshards):
                         want = None
                     if want is not None and not np.array_equal(got, want):
                         ctx.violation("gather-returns-other-rows-than-asked", {**detail, "indices": idx, "got_ids": got})
-                if not pending or not np.array_equal(pending[0], idx):
+                if not seq_known:
+                    pass
+                elif not pending or not np.array_equal(pending[0], idx):
                     ctx.violation("train-epoch-gathers-rows-not-from-its-index-matrix",
                                   {**detail, "gathered": idx, "next_row": pending[0] if pending else None})
                 else:
@@ -926,6 +941,7 @@ def u_eager(ctx, shard, nshards):
             ctx.monitor("train_disable_jit_cases")
     finally:
         AbstractBuffer.flatten_axes, AbstractBuffer.batch_indices, AbstractBuffer.gather = orig
+    _tail_verdict(ctx, agg)
     ctx.require("contract_batch_indices_concrete", 3)
     ctx.require("contract_gather_concrete", 2)
     ctx.require("contract_flatten_concrete", 3)
